@@ -7,7 +7,7 @@ from schedgen import par, parse_par
 ID = "C02"
 DRIVER = "node"
 MODEL_FILES = ["Model/Base.v", "Model/Parse.v", "Model/Node.v"]
-THEOREMS = ["C02_cas_iff", "C02_cas_version", "C02_absent_succeeds", "C02_version_step", "C02_versions_monotone_seq", "C02_versions_strict_seq", "C02_run_okb_ok", "C02_minus2_lowers_version_refuted"]
+THEOREMS = ["C02_cas_iff", "C02_cas_version", "C02_absent_succeeds", "C02_version_step", "C02_versions_monotone_seq", "C02_versions_strict_seq", "C02_run_okb_ok", "C02_minus2_lowers_version_refuted", "C02_sched_release_data", "C02_sched_schedule_data", "C02_sched_par_data", "C02_sched_two_cas_one_winner", "C02_sched_two_cas_schedule", "C02_sched_no_lost_update"]
 STRENGTH = {t: "proof-unbounded" for t in THEOREMS}
 RULE = ("exhaustive sequences (length <= 4 quick / 5 thorough) over {set, set-safe v for v in -1..3, increment, remove, get-safe, "
         "snapshot+flush} on one key of a 'none' database, plus seeded random sequences on two keys with version arguments "
